@@ -79,10 +79,10 @@ def subchecks(tier):
           for i, h in enumerate(designed_histories()
                                 + operand_histories())]
     return [
-        Sub("history", None, test, 64 if q else 2500, kind="machine",
+        Sub("history", None, test, 128 if q else 2500, kind="machine",
             machine=factory, steps=30, shards=8 if q else 16, max_rounds=3, shrink_quick=False,
             generic=dh),
-        Sub("history_aggressive", None, test, 48 if q else 2500,
+        Sub("history_aggressive", None, test, 96 if q else 2500,
             kind="machine", machine=factory_aggr, steps=40,
             shards=8 if q else 16, max_rounds=3, shrink_quick=False),
         Sub("over_time_args", c14.case_strategy(False), test_over_time_args,
